@@ -306,7 +306,7 @@ Section Ops.
     destruct (apply (t_cur t) pfx (PBgp r b')) as [c|]; destruct (apply nw pfx (PBgp r b')) as [n|].
     - destruct (write_full_ok h h5 oc c W5 K05 O05c) as [W6 [K6 O6]].
       destruct (write_full_ok h (write_full h5 oc c) on n W6 K6 (O6 on O05n)) as [W7 [K7 _]].
-      destruct (path_equal c n); [cbn [fst]; auto|].
+      destruct (path_compare c n); [cbn [fst]; auto|].
       apply hadd_inner_ok; rewrite ?hremove_exported_heap; cbn [fst]; [assumption|assumption|exact (proj1 O05n)].
     - rewrite hremove_exported_heap. cbn [fst].
       destruct (write_full_ok h h5 oc c W5 K05 O05c) as [W6 [K6 _]]. auto.
